@@ -26,9 +26,12 @@ SHAPES = ["accept", "reject", "before-user", "after-login", "anonymous-then-pass
           # a peer that ends its lines with a bare LF (`printf 'USER bob\nPASS pw\nQUIT\n' | nc`), or mixes line ends
           "lf-only", "lf-only-eof", "mixed-line-ends", "lf-only-right",
           # after an accepted login: commands that the account's permission rules refuse
-          "accept-then-denied"]
+          "accept-then-denied",
+          # the account was put into the user manager's (public) list after the server was made: the stock manager has
+          # no connection counter for it and the login ends in an internal error - which is logged
+          "account-added-later"]
 ACCEPTING = ("accept", "retry", "accept-then-work", "accept-relogin", "two-sessions-quit-relogin", "two-sessions-drop-relogin",
-             "eof-after-right-pass", "lf-only-right", "accept-then-denied")
+             "eof-after-right-pass", "lf-only-right", "accept-then-denied", "account-added-later")
 SPELL = ["PASS", "pass", "PaSs"]
 # spellings that are not PASS under str.lower() but are under other case mappings (casefold, upper): if the server
 # takes one of them for PASS its argument is a password and must not be logged; if it answers 502 it is not a password
@@ -97,12 +100,14 @@ def scenario(shape, spelling, p, via_client):
             a = w.aioftp
             codes = []
             half_closed = False
+            if shape == "account-added-later":
+                rig.server.user_manager.users.append(a.User("carol", table_pw, base_path=rig.base))
             if via_client:
                 async def main():
                     c = a.Client(path_io_factory=a.MemoryPathIO)
                     await c.connect("127.0.0.1", 2121)
                     try:
-                        await c.login("bob", p)
+                        await c.login("carol" if shape == "account-added-later" else "bob", p)
                         codes.append("ok")
                     except a.StatusCodeError as exc:
                         codes.append("StatusCodeError:" + ",".join(exc.received_codes))
@@ -136,6 +141,7 @@ def scenario(shape, spelling, p, via_client):
                     "two-sessions-quit-relogin": ["USER bob", line, (1, "@connect"), (1, "USER bob"), (1, line),
                                                   "QUIT", (1, "USER bob"), (1, line), (1, "PWD")],
                     "auth-times-out": ["USER bob", line],
+                    "account-added-later": ["USER carol", line],
                     "eof-after-pass": ["USER bob", ("@eof", line)],
                     "eof-after-right-pass": ["USER bob", ("@eof", line)],
                     "two-sessions-drop-relogin": ["USER bob", line, (1, "@connect"), (1, "USER bob"), (1, line),
@@ -336,6 +342,83 @@ def enc_scenario(encoding, p, how):
             rig.close()
 
 
+# servers other than aioftp's: every chain of 33x replies a login can run through (RFC 959: USER may be answered
+# 230, 331 or 332; PASS 230, 332 ...; ACCT 230 ...), up to four commands, ending accepted, refused or cut off
+def login_chains():
+    out = []
+    for n in range(0, 4):
+        for mids in itertools.product(("331", "332"), repeat=n):
+            for last in ("230", "530", "421"):
+                out.append(list(mids) + [last])
+    return out
+
+
+CHAIN_PW = ["s3cr3t %s pass", "hunter2-Zx", "%(message)s-long", "pässwörd-77", "abcd", "with space inside"]
+ACCOUNT = "Account-Name-42"
+
+
+def chain_scenario(chain, p):
+    from vf.fakeserver import FakeServer
+    from vf.world import World
+    with logcap.capture() as cap:
+        w = World()
+        a = w.aioftp
+        fs = FakeServer({})
+        fs.script = [f"{code} step {i}\r\n".encode() for i, code in enumerate(chain)]
+        codes = []
+        try:
+            w.run(fs.start())
+
+            async def main():
+                c = a.Client(path_io_factory=a.MemoryPathIO)
+                await c.connect("127.0.0.1", 2121)
+                try:
+                    await c.login("bob", p, ACCOUNT)
+                    codes.append("ok")
+                except a.StatusCodeError as exc:
+                    codes.append("StatusCodeError:" + ",".join(exc.received_codes))
+                c.close()
+            try:
+                w.run(main())
+            except Hang:
+                codes.append("hang")
+            w.settle(0)
+            codes.append([cmd.split(" ")[0] for cmd in fs.commands])
+            return cap.text(), codes
+        finally:
+            w.close()
+
+
+def chain_work(item):
+    _, chains = item
+    part = report.Partial()
+    for chain in chains:
+        for p in CHAIN_PW:
+            log, codes = chain_scenario(chain, p)
+            rlog, rcodes = chain_scenario(chain, reference(p))
+            part.evaluations += 1
+            part.traces += 1
+            part.transitions += len(chain)
+            part.states.add(report.fp(["chain", chain, codes]))
+            part.nontrivial.add(report.fp(["chain", chain, p]))
+            part.outcomes[report.fp(codes)] += 1
+            sig = {"kind": None, "shape": "chain:" + ",".join(chain), "spelling": "Client.login"}
+            rp = {"chain": chain, "password": p}
+            if codes == rcodes and log != rlog:
+                a_l, b_l = log.split("\n"), rlog.split("\n")
+                diff = next(((x, y) for x, y in zip(a_l, b_l) if x != y), ("<length>", "<length>"))
+                sig["kind"] = "log-depends-on-password"
+                part.violation(sig, {"password_repr": repr(p), "log_line": diff[0][:200], "reference_line": diff[1][:200]}, replay=rp)
+            elif codes != rcodes:
+                sig["kind"] = "outcome-depends-on-password"
+                part.violation(sig, {"password_repr": repr(p), "codes": codes, "reference_codes": rcodes}, replay=rp)
+            if p in log:
+                sig["kind"] = "password-literal-in-log"
+                part.violation(sig, {"password_repr": repr(p)}, replay=rp)
+    part.sample({"login_chains": chains[:3], "passwords": CHAIN_PW}, limit=1)
+    return part
+
+
 def enc_work(item):
     _, encoding, how, pws = item
     part = report.Partial()
@@ -410,6 +493,8 @@ def work(item):
         return lb_work(item)
     if item[0] == "enc":
         return enc_work(item)
+    if item[0] == "chain":
+        return chain_work(item)
     if item[0] == "long":
         return long_work(item)
     if len(item) == 3:
@@ -475,6 +560,9 @@ def build_items(tier):
     for enc in ("latin-1", "ascii", "cp1251"):
         for how in ("context", "login"):
             items.append(("enc", enc, how, ENC_PW))
+    chains = login_chains()
+    for i in range(0, len(chains), 6):
+        items.append(("chain", chains[i:i + 6]))
     for how in ("two-segments", "tail-late", "head-first", "client"):
         for n in ([1000, 65529, 65531, 65536, 70000, 140000] + ([300000] if how == "client" else [])):
             items.append(("long", how, [n]))
@@ -506,7 +594,11 @@ def run(tier, seed, t0):
 def replay(path):
     data = json.loads(open(path).read())
     rp = data["replay"]
-    if "long" in rp:
+    if "chain" in rp:
+        global CHAIN_PW
+        CHAIN_PW = [rp["password"]]
+        part = chain_work(("chain", [rp["chain"]]))
+    elif "long" in rp:
         part = long_work(("long", rp["long"][0], [rp["long"][1]]))
     elif "enc" in rp:
         part = enc_work(("enc", rp["enc"][0], rp["enc"][1], [rp["enc"][2]]))
